@@ -189,6 +189,8 @@ func run(rep *kit.Report, rq reqSpec, bl blockSpec, rp replySpec, retry bool) {
 		lines = append(lines, "policy first", "try_duration 2s", "try_interval 1ms", "fail_timeout 10s")
 	}
 	block := fmt.Sprintf("proxy /api %s {\n\t%s\n}", strings.Join(names, " "), strings.Join(lines, "\n\t"))
+	// a second proxy directive of the same site, with rules of its own: they belong to that block and are never seen here
+	block += "\nproxy /zz http://other.test {\n\ttransparent\n\theader_upstream X-Leak up\n\theader_upstream X-A 1 leak\n\theader_downstream X-Leak down\n\theader_downstream X-B 1 leak\n}"
 	ups, err := proxy.NewStaticUpstreams(casketfile.NewDispenser("Casketfile", strings.NewReader(block)), "")
 	if err != nil {
 		rep.Broken("upstream block does not parse: %v\n%s", err, block)
